@@ -152,10 +152,63 @@ def splice_fn(s, name, impl, spec):
         # rewrites are applied where their source text occurs; when it does not occur the construct they
         # work around is simply absent (if Verus then meets an unsupported construct the run is undecided)
         body = body.replace(old, new)
+    if spec.get('stub_body'):
+        # the body is not looked at at all (isolation of a function the verifier cannot take, see splice_fn_safe)
+        body = '{ unimplemented!() }'
     attrs = ''.join(f'    {a}\n' for a in spec.get('attrs', []))
     if spec.get('external_body'):
         attrs += '    #[verifier::external_body]\n'
     return attrs + sig.rstrip() + '\n' + clauses + body + '\n', sha(s.text_of(it))
+
+
+# ------------------------------------------------------------------------------------------------
+# isolation: a function whose inner anchors are lost, or in which Verus meets an unsupported construct, is kept as
+# `external_body` with its contract (so that its callers are still checked against the contract) and its own obligations
+# become undecided - instead of losing the whole generated file
+# ------------------------------------------------------------------------------------------------
+FORCED = set()      # 'Type::fn' / 'fn' names to stub in the next build
+LOST = {}           # name -> reason
+
+
+def splice_fn_safe(s, name, impl, spec):
+    key = (impl + '::' if impl else '') + name
+    def stub(reason):
+        LOST.setdefault(key, reason)
+        sp = dict((k, v) for k, v in (spec or {}).items() if k in ('ret', 'requires', 'ensures', 'strip_pub'))
+        sp.update(external_body=True, stub_body=True)
+        return splice_fn(s, name, impl, sp)
+    if key in FORCED:
+        return stub(LOST.get(key, 'unsupported construct'))
+    try:
+        return splice_fn(s, name, impl, spec)
+    except AnchorLost as e:
+        try:
+            return stub('anchor lost inside the function: ' + str(e))
+        except AnchorLost:
+            raise e
+
+
+def fn_starts(text):
+    lines = text.split('\n')
+    starts = []
+    cur_impl = None
+    for i, ln in enumerate(lines):
+        mi = re.match(r'impl(?:<[^>]*>)?\s+(?:\w+\s+for\s+)?(\w+)', ln)
+        if mi:
+            cur_impl = mi.group(1)
+        m = re.match(r'\s*(?:pub\s+)?(?:open\s+|closed\s+)?(?:spec\s+|proof\s+|exec\s+)?fn\s+(\w+)', ln)
+        if m:
+            indented = ln.startswith(' ')
+            starts.append((i + 1, (cur_impl + '::' if cur_impl and indented else '') + m.group(1)))
+    return starts
+
+
+def fn_at(starts, line):
+    fn = None
+    for s0, name in starts:
+        if s0 <= line:
+            fn = name
+    return fn
 
 
 # ------------------------------------------------------------------------------------------------
@@ -194,23 +247,43 @@ def build_and_verify(scratch, kind='parser'):
     import verus_specs
     import verus_parser
     res = dict(anchor_lost=None)
-    try:
-        if kind == 'parser':
-            text, shas = verus_parser.build(scratch, verus_specs.SPECS, verus_specs.EXTRA)
-        elif kind == 'lexer':
-            text, shas = verus_parser.build_lexer(scratch, verus_specs.LEXER_SPECS, verus_specs.LEXER_EXTRA)
-        else:
-            text, shas = build_sum(scratch)
-    except AnchorLost as e:
-        res['anchor_lost'] = str(e)
-        _cache[kind] = res
-        return res
+    FORCED.clear(); LOST.clear()
     vdir = os.path.join(os.path.dirname(scratch), 'verus')
     os.makedirs(vdir, exist_ok=True)
     path = os.path.join(vdir, kind + '_v.rs')
-    open(path, 'w').write(text)
-    # the crate's default features, so that cfg(feature = ..) code is the code that `cargo build` compiles
-    r = vlib.run_verus(path, extra=['--', '--cfg', 'feature="git"', '--cfg', 'feature="users"'])
+    for _round in range(5):
+        try:
+            if kind == 'parser':
+                text, shas = verus_parser.build(scratch, verus_specs.SPECS, verus_specs.EXTRA)
+            elif kind == 'lexer':
+                text, shas = verus_parser.build_lexer(scratch, verus_specs.LEXER_SPECS, verus_specs.LEXER_EXTRA)
+            else:
+                text, shas = build_sum(scratch)
+        except AnchorLost as e:
+            res['anchor_lost'] = str(e)
+            _cache[kind] = res
+            return res
+        open(path, 'w').write(text)
+        # the crate's default features, so that cfg(feature = ..) code is the code that `cargo build` compiles
+        r = vlib.run_verus(path, extra=['--', '--cfg', 'feature="git"', '--cfg', 'feature="users"'])
+        js0 = r['json']
+        vr0 = (js0 or {}).get('verification-results', {})
+        if not (bool(vr0.get('encountered-vir-error')) or js0 is None or ('verified' not in vr0)):
+            break
+        # a construct Verus (or rustc, on the generated text) does not take: isolate the functions the errors point into and retry
+        starts0 = fn_starts(text)
+        offenders = {}
+        for m in re.finditer(r'^error(?:\[\w+\])?: (.*)\n\s*--> [^:\n]+:(\d+):(\d+)', r['out'], flags=re.M):
+            f = fn_at(starts0, int(m.group(2)))
+            if f and not f.startswith('verif_') and f not in ('main',):
+                offenders.setdefault(f, m.group(1)[:200])
+        new = set(offenders) - FORCED
+        if not new:
+            break
+        for f in new:
+            FORCED.add(f)
+            LOST[f] = 'Verus cannot take this function as extracted (kept as external_body with its contract): ' + offenders[f]
+    res['lost'] = dict(LOST)
     res.update(text=text, shas=shas, out=r['out'], json=r['json'], cmd=r['cmd'], wall=r['wall'], rc=r['rc'], path=path)
     # assumption scan
     assumes = re.findall(r'\bassume\s*\([^;]*;(?:\s*/\*[^*]*\*/)?', text)
@@ -299,8 +372,13 @@ def run_kind(kind, vobl, prop, results, undecided, violations, checker_cmds, ass
                               'got': 'FAILED' if can_ok else 'VERIFIED-or-missing', 'ok': can_ok})
     if not can_ok:
         undecided.append('canary:verus')
+    lost = res.get('lost', {})
     for o in vobl:
         fn = o['verus_fn']
+        if fn in lost or fn.split('::')[-1] in lost:
+            results[o['id']] = dict(status='undecided', detail=lost.get(fn, lost.get(fn.split('::')[-1])))
+            undecided.append(o['id'])
+            continue
         st = res['fstat'].get(fn)
         if st is None:
             results[o['id']] = dict(status='undecided', detail=f'function {fn} not in Verus report')
